@@ -335,12 +335,31 @@ def requested_pairs(case):
     return sorted((a, b) for a in w for b in w if a < b)
 
 
+_ABOVE = {}
+
+
+def edges_above(desc, x):
+    """{child: [edge ids covering x]} — the definition, tabulated once per (edge table, position)"""
+    key = (id(desc["edges"]), len(desc["edges"]), x)
+    tab = _ABOVE.get(key)
+    if tab is None or tab[0] is not desc["edges"]:
+        m = {}
+        for k, (l, r, p, c) in enumerate(desc["edges"]):
+            if l <= x < r:
+                m.setdefault(c, []).append(k)
+        if len(_ABOVE) > 64:
+            _ABOVE.clear()
+        tab = _ABOVE[key] = (desc["edges"], m)
+    return tab[1]
+
+
 def walk(desc, x, u):
     """[(node, edge id used to leave node or None)] from u to its root at position x."""
     out = []
     seen = 0
+    above = edges_above(desc, x)
     while True:
-        up = [k for k, (l, r, p, c) in enumerate(desc["edges"]) if c == u and l <= x < r]
+        up = above.get(u, [])
         assert len(up) <= 1, "two edges above a node at one position: invalid tree sequence"
         if not up:
             out.append((u, None))
@@ -1033,7 +1052,174 @@ class IbdUnsorted(Family):
                 "simplify": obs["simplify"]}
 
 
-FAMILIES = [IbdShapes, IbdSmall, IbdLarge, IbdErrors, IbdBigNodes, IbdDecimal, IbdUnsorted]
+WIDE_K = (62, 63, 64, 65, 66, 126, 127, 128, 129, 130, 257)
+
+
+def wide_desc(rng, k, shape):
+    """k requested nodes whose ancestry travels over ONE edge (star), or accumulates over a chain of
+    stars (caterpillar: k1 under u1, u1 and k2 more under u2, ...), one to three trees; some leaf edges
+    are left unsquashed so that one sample contributes several ancestry segments to the same edge."""
+    L = rng.choice([1, 2, 2, 3])
+    parts = [k] if shape == "star" else sorted(rng.sample(range(1, k), rng.choice([1, 2])) + [k])
+    parts = [b - a for a, b in zip([0] + parts[:-1], parts)]
+    nodes, edges = [], []
+    for _ in range(k + 1):                      # k under the stars + one more under the root
+        nodes.append([1, 0])
+    centers = []
+    for i, _n in enumerate(parts):
+        nodes.append([rng.choice([0, 0, 1]), i + 1])
+        centers.append(len(nodes) - 1)
+    nodes.append([0, len(parts) + 1])
+    root = len(nodes) - 1
+    u = 0
+    for i, n in enumerate(parts):
+        for _ in range(n):
+            if L > 1 and rng.random() < 0.15:
+                cut = rng.randrange(1, L)
+                if rng.random() < 0.5:          # same parent, abutting unsquashed edges: 2 ancestry segments
+                    edges += [[0, cut, centers[i], u], [cut, L, centers[i], u]]
+                else:                           # moves to the root in the right part
+                    edges += [[0, cut, centers[i], u], [cut, L, root, u]]
+            else:
+                edges.append([0, L, centers[i], u])
+            u += 1
+    edges.append([0, L, root, k])
+    for i, c in enumerate(centers):
+        edges.append([0, L, centers[i + 1] if i + 1 < len(centers) else root, c])
+    rng.shuffle(edges)
+    return {"L": L, "scale": rng.choice([1, 0.5, 2.5]), "nodes": nodes, "edges": edges}
+
+
+class IbdWide(IbdBase):
+    """SIZES AT AND BEYOND INTERNAL CAPACITY BOUNDARIES: the per-edge segment queue of tsk_ibd_finder starts
+    at 64 entries and doubles (tables.c, enqueue_segment), the finder's segment heap is carved from 8192-byte
+    blocks (256 segments), the result heap from 1 MiB blocks (~10^4 pairs).  Stars / caterpillars of stars
+    with k = 62..66, 126..130, 257 (random k <= 300 in thorough) samples under one internal node, checked
+    against the positional definition: totals, every pair's (len, total_span), every stored segment, and
+    reversed lookups.  k <= 66 additionally goes through the full observation and the Coq correspondence
+    (C = IbdAlg = IbdSpec); larger k use a lean observation (the full one would be ~30 MB of JSON)."""
+    name = "ibd_wide"
+    workers = 6
+    timeout = 300.0
+    shard = 1
+    coq_timeout = 1500
+
+    def generate(self, rng, tier):
+        ks = list(WIDE_K)
+        if tier != "quick":
+            ks += [61, 67, 125, 131, 255, 256, 258] + [rng.randrange(60, 300) for _ in range(6)]
+        for i, k in enumerate(ks):
+            for j in range(2 if k in (65, 129) else 1):
+                mode = (i + j) % 3
+                d = wide_desc(rng, k, "star" if (i + j) % 2 == 0 else "caterpillar")
+                n = len(d["nodes"])
+                ids = list(range(k + 1))
+                within = between = None
+                if mode == 1:
+                    within = ids[::-1] + [n - 2]
+                elif mode == 2:
+                    cut = rng.choice([1, k // 2, k])
+                    between = [ids[:cut], ids[cut:]]
+                yield {"desc": d, "within": within, "between": between,
+                       "min_span2": rng.choice([0, 0, 0, 1, 2]), "max_time2": rng.choice([None, None, 3, 5]),
+                       "layout": rng.choice(LAYOUTS), "k": k,
+                       # full observation + Coq correspondence where the model's cost allows
+                       "lean": k > 66 or (tier == "quick" and not (k in (63, 65, 66) and j == 0))}
+
+    # ---- lean observation for the big ones ----
+    def observe(self, case):
+        if not case["lean"]:
+            return observe_case(case)
+        tc = build_tc(case)
+        ts = tc.tree_sequence()
+        lat = lattice_map(case["desc"])
+        kw = call_args(case)
+        out = {"lean": True}
+        r = ts.ibd_segments(**kw)
+        out["FF"] = [int(r.num_segments), float(r.total_span)]
+        r = tc.ibd_segments(**kw)
+        out["tcFF"] = [int(r.num_segments), float(r.total_span)]
+        r = ts.ibd_segments(store_pairs=True, **kw)
+        out["TF"] = {"num_segments": int(r.num_segments), "total_span": float(r.total_span), "num_pairs": int(r.num_pairs),
+                     "rows": [[int(a), int(b), len(r[(a, b)]), float(r[(a, b)].total_span), len(r[(b, a)])] for a, b in r.pairs]}
+        r = tc.ibd_segments(store_segments=True, **kw)
+        rows = []
+        for a, b in r.pairs:
+            sl = r[(a, b)]
+            rows.append([int(a), int(b), len(sl), float(sl.total_span),
+                         sorted([lat.get(float(l), float(l)), lat.get(float(rr), float(rr)), int(u)]
+                                for l, rr, u in zip(sl.left, sl.right, sl.node))])
+        out["TT"] = {"num_segments": int(r.num_segments), "total_span": float(r.total_span), "num_pairs": int(r.num_pairs),
+                     "len": len(r), "rows": rows}
+        return out
+
+    def oracle(self, case, obs):
+        if not case["lean"]:
+            return oracle_case(case, obs)
+        d = case["desc"]
+        exact = desc_exact(d)
+        exp = expected(case, strict=True)
+        if exp != expected(case, strict=False):
+            exp = expected(case, strict=False)          # the max_time boundary is the other finding's subject
+        out = []
+        nseg = sum(len(v) for v in exp.values())
+        tot = sum(cspan(d, l, r) for v in exp.values() for l, r, _u in v)
+        for name in ("FF", "tcFF"):
+            if obs[name][0] != nseg:
+                out.append(("num_segments", "[%s] num_segments=%r expected %r" % (name, obs[name][0], nseg)))
+            if not close(obs[name][1], tot, exact):
+                out.append(("total_span", "[%s] total_span=%r expected %r" % (name, obs[name][1], tot)))
+        want_rows = [[a, b, len(v), sum(cspan(d, l, r) for l, r, _ in v)] for (a, b), v in sorted(exp.items())]
+        for name in ("TF", "TT"):
+            o = obs[name]
+            if o["num_segments"] != nseg or not close(o["total_span"], tot, exact):
+                out.append(("num_segments", "[%s] num_segments=%r total_span=%r expected %r / %r"
+                            % (name, o["num_segments"], o["total_span"], nseg, tot)))
+            if o["num_pairs"] != len(exp) or o.get("len", len(exp)) != len(exp):
+                out.append(("num_pairs", "[%s] num_pairs=%r expected %r" % (name, o["num_pairs"], len(exp))))
+            got_pairs = [(x[0], x[1]) for x in o["rows"]]
+            if got_pairs != sorted(exp):
+                missing = sorted(set(exp) - set(got_pairs))[:5]
+                extra = sorted(set(got_pairs) - set(exp))[:5]
+                out.append(("pairs", "[%s] %d pairs, expected %d; missing %r unexpected %r"
+                            % (name, len(got_pairs), len(exp), missing, extra)))
+                continue
+            for x, w in zip(o["rows"], want_rows):
+                if x[2] != w[2]:
+                    out.append(("pair-len", "[%s] len(%d,%d)=%r expected %r" % (name, x[0], x[1], x[2], w[2])))
+                    break
+                if not close(x[3], w[3], exact):
+                    out.append(("pair-total_span", "[%s] total_span(%d,%d)=%r expected %r" % (name, x[0], x[1], x[3], w[3])))
+                    break
+                if name == "TF" and x[4] != w[2]:
+                    out.append(("pair-lookup", "[TF] len(result[(%d,%d)])=%r expected %r" % (x[1], x[0], x[4], w[2])))
+                    break
+                if name == "TT" and [tuple(y) for y in x[4]] != exp[(x[0], x[1])]:
+                    out.append(("segments", "[TT] pair (%d,%d): got %r expected %r" % (x[0], x[1], x[4][:3], exp[(x[0], x[1])][:3])))
+                    break
+        return out
+
+    def coq_check(self, case, obs):
+        if case["lean"]:
+            return None
+        return coq_term(case, obs)
+
+    def nontrivial(self, case, obs):
+        if case["lean"]:
+            return obs["FF"][0] > 0
+        return IbdBase.nontrivial(self, case, obs)
+
+    def describe(self, case, obs):
+        nseg = obs["FF"][0] if case["lean"] else (obs["r"]["FF"]["num_segments"] if "r" in obs and "error" not in obs["r"]["FF"] else -1)
+        return {"k": case["k"], "lean": case["lean"],
+                "mode": "between" if case["between"] is not None else ("within" if case["within"] is not None else "default"),
+                "trees": case["desc"]["L"], "segments_log2": max(nseg, 1).bit_length()}
+
+    def shrink(self, case):
+        return []
+
+
+FAMILIES = [IbdShapes, IbdSmall, IbdLarge, IbdErrors, IbdBigNodes, IbdDecimal, IbdUnsorted, IbdWide]
 
 NOT_COVERED = [
     "tsk_ibd_finder -> IbdSpec refinement is not proved in Coq (ibd_alg_refines_spec_partial); tied per run on the generated cases",
